@@ -496,6 +496,10 @@ func c18Run(w *run.Worker) {
 	if w.Thorough {
 		c02TreeRun(w, d, 3, 5)
 	}
+	v2exec := func(part string, stmts []*rt.Node) { c18Exec(w, part, stmts, "") }
+	c03Counted(w, v2exec)
+	c03Rounds(w, v2exec)
+	c03Chains(w, v2exec)
 	c02Again(w, d)
 	c04SliceAgain(w, d)
 	c04Paths(w, d)
